@@ -560,7 +560,7 @@ func (e *Engine) runPass(vc *VC) {
 		_ = save
 	}
 	// panic sites
-	if !vc.lenient() {
+	if !vc.lenient() || con.PanicsDeclared {
 		for k, ps := range vc.panics {
 			var alts []T
 			for _, cl := range panicsCl {
@@ -580,10 +580,39 @@ func (e *Engine) runPass(vc *VC) {
 				}
 				alts = append(alts, and(m, vc.evalBool(cl.Expr, vc.topEnv(ps.st))))
 			}
+			if len(con.PanicsKeep) == 0 {
+				vc.panicWhat = append(vc.panicWhat, fmt.Sprintf("panic%d=%s", k+1, ps.what))
+			}
 			o := vc.oblige("panic", fmt.Sprintf("panic%d.declared", k+1), ps.guard, or(alts...))
 			if o != nil {
 				o.NFacts = len(vc.facts)
 			}
+		}
+	}
+	// panics_keep: a panic anywhere below this function finds the listed ghost views at their entry values
+	if len(con.PanicsKeep) > 0 {
+		var gs []string
+		for g := range vc.ghost {
+			for _, p := range con.PanicsKeep {
+				if strings.HasPrefix(g, ghostName(p)) {
+					gs = append(gs, g)
+					break
+				}
+			}
+		}
+		sort.Strings(gs)
+		for k, ps := range vc.panics {
+			var eqs []T
+			for _, g := range gs {
+				if cur := vc.heapGet(ps.st, g); cur != g+"@0" {
+					eqs = append(eqs, eq(cur, g+"@0"))
+				}
+			}
+			o := vc.oblige("panic", fmt.Sprintf("panic%d.notrace", k+1), ps.guard, and(eqs...))
+			if o != nil {
+				o.NFacts = len(vc.facts)
+			}
+			vc.panicWhat = append(vc.panicWhat, fmt.Sprintf("panic%d=%s", k+1, ps.what))
 		}
 	}
 	if len(fr.rets) == 0 && len(vc.panics) == 0 {
